@@ -183,6 +183,8 @@ def h_tmpstore(d1: bytes, d2: bytes, d3: bytes, lens: str) -> None:
     reached()
 
 
+from zverif.harness.c13 import h_directed_sp as _blob_sp, h_fault as _blob_fault  # noqa: E402
+
 HARNESSES = [
     Harness('program', h_program,
             decides='after every step of any program over modify/add/savepoint/rollback(k)/commit/abort the connection shows exactly '
@@ -210,6 +212,18 @@ HARNESSES = [
             code=['TmpStore.store', 'TmpStore.load', 'TmpStore.reset'],
             quick=dict(timeout=100, shards=shards(lens=['012', '333', '504'])),
             thorough=dict(timeout=300, shards=shards(lens=['012', '333', '504', '666', '160']))),
+    Harness('blob_savepoints', _blob_sp,
+            decides='blob writes around savepoints: after rolling back to the first savepoint (also with a later one in between) the blob '
+                    'reads the savepoint bytes; commit stores exactly the final bytes, abort discards all (C13 directed_sp)',
+            symbolic='3 write selectors, optional second savepoint, commit or abort', bounds='programs of 4-7 steps of this shape; real scratch directory',
+            oracle='blob model', code=['TmpStore.storeBlob/loadBlob/reset', 'Connection._rollback_savepoint'],
+            quick=dict(timeout=150, shards=shards(kind=['file'])), thorough=dict(timeout=300, shards=shards(kind=['file', 'mapping', 'proxy']))),
+    Harness('blob_savepoint_fault', _blob_fault,
+            decides='a commit (also one that replays savepoint data) during which one file-system operation or one store fails leaves nothing '
+                    'of the transaction behind - no savepoint files either - and the next transaction commits normally (C13 fault)',
+            symbolic='2 step codes (7 blob operations incl. savepoint), f = index of the failing operation', bounds='one fault per commit',
+            oracle='blob model + directory listing', code=['Connection._commit_savepoint (TmpStore.close)', 'TmpStore'],
+            quick=dict(timeout=200, shards=shards(kind=['file'], other=[False])), thorough=dict(timeout=900, shards=shards(kind=['file'], other=[False, True]))),
 ]
 
 MANIFEST = dict(
